@@ -4,7 +4,12 @@
 //! chosen iteration of a busy-wait, through the hook site 4), and a reference transmit side that reads the
 //! published chains through device addresses only (hook site 0 / notify).
 //! Lines 1500..1510: one call of the real driver each, every observation predicted by the model.
-//! Lines 1550..1558: monitors (the property evaluated on what the implementation did).
+//! Lines 1550..1560: monitors (the property evaluated on what the implementation did).
+//! The reference device chooses its notification-suppression words (used.flags, avail_event) for the receive and
+//! the transmit queue independently and changes them between calls (flag set / clear; event index at the next
+//! entry, behind, one ahead, far ahead, around the half range), under every feature combination, `new` included;
+//! the words in force at a call are inputs of its line, so the model predicts each notification.
+//! `c15-wrap` takes both queues across the 16-bit index wrap with one line per operation.
 use crate::hal::{self, Ev, LedgerHal};
 use crate::scen::common::*;
 use crate::scen::qrig::{read_desc, QAddr, CURQ};
@@ -37,7 +42,30 @@ struct ConDev {
 }
 thread_local! { static DEV: RefCell<Option<ConDev>> = RefCell::new(None);
     /// the transport state while `new` runs: lets the observer find the receive queue as soon as it is registered
-    static NEW_ST: RefCell<Option<Rc<RefCell<TState>>>> = RefCell::new(None); }
+    static NEW_ST: RefCell<Option<Rc<RefCell<TState>>>> = RefCell::new(None);
+    /// suppression words (used.flags, avail_event) the device writes into the receive queue as soon as the queue exists
+    static NEW_WORDS: RefCell<Option<(u16, u16)>> = RefCell::new(None); }
+
+/// offset of avail_event in the used ring of a queue of size 2
+const AE_OFF: u64 = 4 + 8 * 2;
+fn set_words(q: &QAddr, flags: u16, ae: u16) { hal::dev_write_u16(q.dev, flags).unwrap(); hal::dev_write_u16(q.dev + AE_OFF, ae).unwrap(); }
+/// (avail_event, used.flags) as they stand in device-written memory
+fn get_words(q: &QAddr) -> (u128, u128) { (hal::dev_read_u16(q.dev + AE_OFF).unwrap() as u128, hal::dev_read_u16(q.dev).unwrap() as u128) }
+/// suppression words for a queue whose available index stands at `a` (the next entry is published as a + 1):
+/// the flag set / clear / with other bits, the event index at the next entry, behind it, ahead of it, far ahead, at the half range
+fn pick_words(ctx: &mut Ctx, a: u16, tag: &str) -> (u16, u16) {
+    let flags = match ctx.rng.below(8) { 0 | 1 | 2 => 0u16, 3 | 4 | 5 => 1, 6 => 0xfffe, _ => *ctx.rng.pick(&[3u16, 0xffff, 0x8001]) };
+    let (ae, what) = match ctx.rng.below(11) {
+        0 | 1 => (a, "next"), 2 => (a.wrapping_sub(1), "behind"), 3 => (a.wrapping_add(1), "one_ahead"),
+        4 | 5 => (a.wrapping_add(0x4000), "far_ahead"), 6 => (a.wrapping_add(0x7fff), "half_minus_1"), 7 => (a.wrapping_add(0x8000), "half"),
+        8 => (a.wrapping_add(0x8001), "half_plus_1"), 9 => (a.wrapping_sub(1 + ctx.rng.below(6) as u16), "behind"), _ => (ctx.rng.next() as u16, "random") };
+    ctx.tr.note(&format!("{}_flag_bit_{}", tag, flags & 1)); ctx.tr.note(&format!("{}_event_{}", tag, what));
+    (flags, ae)
+}
+/// words that ask for a notification of the entry published next, under either feature setting
+fn asking_words(ctx: &mut Ctx, a: u16) -> (u16, u16) {
+    (*ctx.rng.pick(&[0u16, 0, 0xfffe]), match ctx.rng.below(4) { 0 | 1 => a, 2 => a.wrapping_sub(1 + ctx.rng.below(5) as u16), _ => a.wrapping_add(0x8001) })
+}
 
 impl ConDev {
     fn rx_view(&self) -> Vec<u128> {
@@ -77,7 +105,6 @@ impl ConDev {
         self.rx_used = self.rx_used.wrapping_add(1);
         self.rx_seen = self.rx_seen.wrapping_add(1);
         hal::dev_write_u16(self.rx.dev + 2, self.rx_used).unwrap();
-        if self.event_idx { hal::dev_write_u16(self.rx.dev + 4 + 16, self.rx_seen).unwrap(); }
         self.filled_unpopped = true;
         // what the buffer holds in its first min(ulen, PAGE) bytes (a fresh bounce buffer is zero beyond the chunk)
         let mut d = chunk.to_vec(); d.resize((ulen as usize).min(PAGE).max(chunk.len().min(ulen as usize)), 0); d.truncate((ulen as usize).min(PAGE));
@@ -120,7 +147,6 @@ impl ConDev {
             self.tx_seen = self.tx_seen.wrapping_add(1);
             hal::dev_write_u16(self.tx.dev + 2, self.tx_used).unwrap();
         }
-        if self.event_idx && matches!(self.tx_policy, TxPolicy::OnNotify) { hal::dev_write_u16(self.tx.dev + 4 + 16, self.tx_seen).unwrap(); }
     }
 }
 
@@ -131,7 +157,11 @@ fn observer(e: Event) {
     if q.size == 0 {
         // inside VirtIOConsole::new: the only queue operation there is the first receive request
         let found = NEW_ST.with(|s| s.borrow().as_ref().and_then(|st| st.try_borrow().ok().and_then(|t| t.queues.get(0).copied()).filter(|qi| qi.set)));
-        if let Some(qi) = found { q = QAddr { desc: qi.desc, drv: qi.drv, dev: qi.dev, size: 2 }; }
+        if let Some(qi) = found {
+            q = QAddr { desc: qi.desc, drv: qi.drv, dev: qi.dev, size: 2 };
+            // the device has its suppression words in place before the driver looks at them (should_notify comes after add)
+            if let Some((f, ae)) = NEW_WORDS.with(|w| w.borrow_mut().take()) { set_words(&q, f, ae); }
+        }
     }
     match e {
         Event::Store { what: 0, index, .. } => {
@@ -210,12 +240,16 @@ struct Rig {
     undelivered: usize,   // harness's own count: written by the device, not yet handed over (only used to choose operations)
     release: bool,
     monitors: bool,   // false in the malformed-device scenarios: no stream monitor applies there
+    /// the long wrap scenario: a monitor line implied by another monitor line of the same call is left out
+    /// (1555 [1] by 1552 with bytes; 1557 "<= 1" by 1559 "= 1 / = 0")
+    lean: bool,
 }
 
 fn dev<R>(f: impl FnOnce(&mut ConDev) -> R) -> R { DEV.with(|d| f(d.borrow_mut().as_mut().unwrap())) }
 
 impl Rig {
-    fn new(ctx: &mut Ctx, feats: u64, cfg_len: usize, monitors: bool) -> Option<Rig> {
+    /// `words`: (used.flags, avail_event) the device puts into the receive queue before `new` posts the first buffer
+    fn new(ctx: &mut Ctx, feats: u64, cfg_len: usize, monitors: bool, words: (u16, u16)) -> Option<Rig> {
         hal::reset();
         DEV.with(|d| *d.borrow_mut() = None);
         CURQ.with(|c| *c.borrow_mut() = QAddr::default());
@@ -225,8 +259,10 @@ impl Rig {
         let (t, st) = ModelTransport::new(ts);
         hal::take_log();
         NEW_ST.with(|s| *s.borrow_mut() = Some(st.clone()));
+        NEW_WORDS.with(|w| *w.borrow_mut() = Some(words));
         let r = catch_unwind(AssertUnwindSafe(move || Console::new(t)));
         NEW_ST.with(|s| *s.borrow_mut() = None);
+        NEW_WORDS.with(|w| *w.borrow_mut() = None);
         let evs = hal::take_log();
         let (rxq, txq) = { let s = st.borrow(); (s.queues[0], s.queues[1]) };
         let rx = QAddr { desc: rxq.desc, drv: rxq.drv, dev: rxq.dev, size: 2 };
@@ -235,23 +271,33 @@ impl Rig {
         for e in &evs { if let Ev::Share { vaddr, paddr, .. } = e { addr = *paddr; rx_vaddr = *vaddr; } }
         let negotiated = feats & ((1 << 29) | (1 << 28) | 1 | 4 | (1 << 32) | (1 << 33));
         let mut o = enc_result(&r, |_| 0).to_vec(); o.extend(enc_cevs(&evs, 0, 0));
-        // suppression words of a fresh used ring are zero
-        ctx.tr.line(1500, &[feats as u128, addr as u128, 0, 0], &o);
+        // the suppression words poll_retrieve saw: what the device wrote when the queue appeared (a fresh ring holds zeros)
+        let (ae0, uf0) = if rxq.set { get_words(&rx) } else { (0, 0) };
+        ctx.tr.line(1500, &[feats as u128, addr as u128, ae0, uf0], &o);
+        if evs.iter().any(|e| matches!(e, Ev::Share { .. })) { ctx.tr.note(if evs.iter().any(|e| matches!(e, Ev::Notify(0))) { "new_post_notified" } else { "new_post_not_notified" }); }
         let con = match r { Ok(Ok(c)) => c, _ => return None };
         DEV.with(|d| *d.borrow_mut() = Some(ConDev { rx, tx, event_idx: negotiated & (1 << 29) != 0, rx_seen: 0, rx_used: 0, tx_seen: 0, tx_used: 0,
             filled_unpopped: false, last_data: vec![], plan: None, rx_spins: 0, rx_views: vec![], fired: None, gave_up: false,
             tx_policy: TxPolicy::OnNotify, tx_spins: 0, tx_obs: vec![], tx_chains: vec![] }));
         st.borrow_mut().on_notify = Some(Box::new(|q, _s| { if q == 1 { DEV.with(|d| { if let Some(dev) = d.borrow_mut().as_mut() {
             if dev.tx_policy == TxPolicy::OnNotify { dev.tx_service(); } } }); } }));
-        let mut rig = Rig { con, st, rx_vaddr, seen_avail: 0, undelivered: 0, release: ctx.release, monitors };
+        let mut rig = Rig { con, st, rx_vaddr, seen_avail: 0, undelivered: 0, release: ctx.release, monitors, lean: false };
         rig.after_rx(ctx, &evs, true);
         Some(rig)
     }
 
     fn mon(&self, ctx: &mut Ctx, kind: u64, ins: &[u128], outs: &[u128]) { if self.monitors { ctx.tr.line(kind, ins, outs); } }
 
-    fn rx_env(&self) -> (u128, u128) {
-        dev(|d| (hal::dev_read_u16(d.rx.dev + 4 + 16).unwrap() as u128, hal::dev_read_u16(d.rx.dev).unwrap() as u128))
+    fn rx_env(&self) -> (u128, u128) { dev(|d| get_words(&d.rx)) }
+    /// the device changes the suppression words of the receive queue (between two calls)
+    fn rx_words(&mut self, ctx: &mut Ctx) {
+        let (rx, a) = dev(|d| (d.rx, hal::dev_read_u16(d.rx.drv + 2).unwrap()));
+        let (f, ae) = pick_words(ctx, a, "rx");
+        set_words(&rx, f, ae);
+    }
+    fn rx_words_set(&mut self, flags: u16, ae_rel: u16) {
+        let (rx, a) = dev(|d| (d.rx, hal::dev_read_u16(d.rx.drv + 2).unwrap()));
+        set_words(&rx, flags, a.wrapping_add(ae_rel));
     }
 
     /// bookkeeping after a receive-side call: has a pop happened, has a buffer been posted (monitor 1550), outstanding <= 1 (1557)
@@ -261,6 +307,9 @@ impl Rig {
         if evs.iter().any(|e| matches!(e, Ev::Unshare { .. })) { dev(|d| d.filled_unpopped = false); }
         for e in evs { if let Ev::Share { vaddr, len, dir, .. } = e {
             if *vaddr != self.rx_vaddr || *len != PAGE || *dir != 1 { hal::violate(format!("receive share of {:#x}+{} dir {} is not the receive buffer", vaddr, len, dir)); } } }
+        if evs.iter().any(|e| matches!(e, Ev::Share { .. })) {
+            ctx.tr.note(if evs.iter().any(|e| matches!(e, Ev::Notify(0))) { "rx_post_notified" } else { "rx_post_not_notified" });
+        }
         if post_line { self.post_line_adj(ctx, filled_since); }
     }
     fn post_line(&mut self, ctx: &mut Ctx) { self.post_line_adj(ctx, 0) }
@@ -302,12 +351,21 @@ impl Rig {
         ctx.tr.line(1501, &i, &o);
         self.after_rx(ctx, &evs, false);
         match &r {
-            Ok(Ok(Some(b))) => { self.mon(ctx, 1555, &[1], &[1]); self.mon(ctx, 1552, &[pop as u128, *b as u128], &[1]); if pop { self.undelivered = self.undelivered.saturating_sub(1); }
+            Ok(Ok(Some(b))) => { if !self.lean { self.mon(ctx, 1555, &[1], &[1]); } self.mon(ctx, 1552, &[pop as u128, *b as u128], &[1]); if pop { self.undelivered = self.undelivered.saturating_sub(1); }
                 ctx.tr.note(if pop { "recv_pop_some" } else { "recv_peek_some" }); }
             Ok(Ok(None)) => { self.mon(ctx, 1555, &[0], &[1]); ctx.tr.note("recv_none"); }
             _ => { ctx.tr.note("recv_failed"); }
         }
-        self.post_line(ctx); self.outstanding_line(ctx);
+        let popped_byte = pop && matches!(r, Ok(Ok(Some(_))));
+        if popped_byte {
+            // the property on device-visible memory: the last byte taken -> exactly one buffer posted again (whatever the
+            // suppression words were); bytes left -> none posted.  Evaluated by the monitor against ITS record of the stream.
+            let (ai, ui) = dev(|d| (hal::dev_read_u16(d.rx.drv + 2).unwrap(), hal::dev_read_u16(d.rx.dev + 2).unwrap()));
+            self.mon(ctx, 1559, &[ai as u128, ui as u128], &[1]);
+            if ai == ui.wrapping_add(1) { ctx.tr.note("recv_pop_reposted"); if ai == 0 || ui == 0xffff { ctx.tr.note("recv_pop_reposted_at_the_wrap"); } }
+        }
+        self.post_line(ctx);
+        if !(self.lean && popped_byte) { self.outstanding_line(ctx); }
         matches!(r, Ok(Ok(_)))
     }
 
@@ -398,12 +456,13 @@ impl Rig {
     /// kind 0 = send(byte), 1 = send_bytes, 2 = embedded_io::Write::write, 3 = fmt::Write::write_str
     fn send(&mut self, ctx: &mut Ctx, kind: u8, bytes: Vec<u8>, policy: TxPolicy) -> bool {
         CURQ.with(|c| *c.borrow_mut() = dev(|d| d.tx));
-        let ev_idx = dev(|d| d.event_idx);
-        // a polling device asks not to be notified; a notify-driven one asks for it
-        dev(|d| { d.tx_policy = policy; d.tx_spins = 0; d.tx_obs.clear(); d.tx_chains.clear(); d.gave_up = false;
-            match policy { TxPolicy::Poll(_) => { if ev_idx { let far = hal::dev_read_u16(d.tx.drv + 2).unwrap().wrapping_add(0x4000); hal::dev_write_u16(d.tx.dev + 4 + 16, far).unwrap(); } else { hal::dev_write_u16(d.tx.dev, 1).unwrap(); } }
-                            TxPolicy::OnNotify => { if ev_idx { hal::dev_write_u16(d.tx.dev + 4 + 16, d.tx_seen).unwrap(); } else { hal::dev_write_u16(d.tx.dev, 0).unwrap(); } } } });
-        let (ae, uf) = dev(|d| (hal::dev_read_u16(d.tx.dev + 4 + 16).unwrap() as u128, hal::dev_read_u16(d.tx.dev).unwrap() as u128));
+        // a device that waits for the notification must have asked for it (under either feature setting); a polling device
+        // has any words at all: set, clear, event index at the next entry, behind, ahead, far ahead
+        let (txq, a) = dev(|d| (d.tx, hal::dev_read_u16(d.tx.drv + 2).unwrap()));
+        let (f, e) = match policy { TxPolicy::OnNotify => asking_words(ctx, a), TxPolicy::Poll(_) => pick_words(ctx, a, "tx") };
+        set_words(&txq, f, e);
+        dev(|d| { d.tx_policy = policy; d.tx_spins = 0; d.tx_obs.clear(); d.tx_chains.clear(); d.gave_up = false; });
+        let (ae, uf) = get_words(&txq);
         let mark = hal::log_len();
         let r: std::thread::Result<Result<usize, virtio_drivers::Error>> = { let c = &mut self.con; let b = &bytes; match kind {
             0 => catch_unwind(AssertUnwindSafe(move || c.send(b[0]).map(|_| 0))),
@@ -422,6 +481,11 @@ impl Rig {
         o.extend(enc_cevs(&evs, 1, 0));
         ctx.tr.line(if kind == 2 { 1508 } else { 1507 }, &i, &o);
         for e in &evs { if let Ev::Share { len, dir, .. } = e { if *len != bytes.len() || *dir != 0 { hal::violate(format!("transmit share len {} dir {} for a {}-byte send", len, dir, bytes.len())); } } }
+        // a send of at least one byte to this device (it serves the queue when told, having asked, or by polling) returns Ok;
+        // in the lean scenario the line is written only when it fails (1556 below is written exactly for the sends that returned Ok)
+        if !bytes.is_empty() && !(self.lean && matches!(r, Ok(Ok(_)))) {
+            self.mon(ctx, 1560, &[gave_up as u128, match &r { Ok(Ok(_)) => 0, Ok(Err(_)) => 1, Err(_) => 2 }], &[1]);
+        }
         if matches!(r, Ok(Ok(_))) && !bytes.is_empty() {
             // what the device read from the published chain must be the caller's bytes, one readable element
             let mut m = vec![bytes.len() as u128]; m.extend(bytes.iter().map(|b| *b as u128));
@@ -429,6 +493,8 @@ impl Rig {
                                       _ => { m.extend([0, chains.len() as u128 + 100, 0]); } }
             self.mon(ctx, 1556, &m, &[1]);
             ctx.tr.note(&format!("send_kind_{}", kind)); ctx.tr.note(match policy { TxPolicy::OnNotify => "tx_notify_driven", TxPolicy::Poll(_) => "tx_polling" });
+            ctx.tr.note(if evs.iter().any(|e| matches!(e, Ev::Notify(1))) { "tx_notified" } else { "tx_not_notified" });
+            if a == 0xffff { ctx.tr.note("send_across_the_wrap"); }
         } else { ctx.tr.note("send_not_ok"); }
         matches!(r, Ok(Ok(_)))
     }
@@ -502,10 +568,13 @@ fn consume_amt(ctx: &mut Ctx, avail: usize) -> usize {
 
 /// a random interleaving of every receive-side call, device fills at random moments, and sends
 fn history(ctx: &mut Ctx, feats: u64, nops: usize, small_chunks: bool, cfg_len: usize) {
-    let mut rig = match Rig::new(ctx, feats, cfg_len, true) { Some(r) => r, None => { ledger_line(ctx); return; } };
+    let w0 = pick_words(ctx, 0, "rx");
+    let mut rig = match Rig::new(ctx, feats, cfg_len, true, w0) { Some(r) => r, None => { ledger_line(ctx); return; } };
     let mut last_fill_buf: Option<usize> = None;
     for _ in 0..nops {
-        // the device acts between two calls
+        // the device acts between two calls: it may change its mind about notifications of the receive queue
+        // (the transmit queue's words are chosen, independently, at every send)
+        if ctx.rng.chance(1, 2) { rig.rx_words(ctx); }
         if ctx.rng.chance(2, 5) { let n = chunk_len(ctx, small_chunks); let c = ctx.rng.bytes(n); rig.device_fill(ctx, c, None); }
         let ok = match ctx.rng.below(100) {
             0..=13 => rig.recv(ctx, false),
@@ -549,7 +618,7 @@ fn history(ctx: &mut Ctx, feats: u64, nops: usize, small_chunks: bool, cfg_len: 
 /// directed sequences: the call patterns of the crate's tests, the boundaries of every comparison, and
 /// the interleavings the tests never visit
 fn directed(ctx: &mut Ctx, feats: u64) {
-    let mut rig = match Rig::new(ctx, feats, 12, true) { Some(r) => r, None => { ledger_line(ctx); return; } };
+    let mut rig = match Rig::new(ctx, feats, 12, true, (0, 0)) { Some(r) => r, None => { ledger_line(ctx); return; } };
     // nothing yet
     rig.recv(ctx, false); rig.recv(ctx, true); rig.ack(ctx, 0); rig.ack(ctx, 1); rig.read_ready(ctx);
     // one byte, interrupt, peek, pop, empty again (test `receive`)
@@ -588,7 +657,7 @@ fn directed(ctx: &mut Ctx, feats: u64) {
 /// a device that breaks the rules (length 0, length above the buffer) and a wait that gets no data:
 /// the model follows the code; no stream monitor applies
 fn malformed(ctx: &mut Ctx, feats: u64, which: u32) {
-    let mut rig = match Rig::new(ctx, feats, 12, false) { Some(r) => r, None => { ledger_line(ctx); return; } };
+    let mut rig = match Rig::new(ctx, feats, 12, false, (0, 0)) { Some(r) => r, None => { ledger_line(ctx); return; } };
     match which {
         0 => { // used length 0: assert_ne!(len, 0)
             let ok = dev(|d| d.rx_fill(&[1, 2, 3], Some(0)));
@@ -615,11 +684,99 @@ fn malformed(ctx: &mut Ctx, feats: u64, which: u32) {
 /// three bytes received, two read, then consume(usize::MAX). Before the repair the release profile accepted it
 /// (cursor + amt wrapped), moved the cursor back by one and handed 2 3 out a second time.
 fn finding_consume_overflow(ctx: &mut Ctx) {
-    let mut rig = match Rig::new(ctx, 0, 12, true) { Some(r) => r, None => { ledger_line(ctx); return; } };
+    let mut rig = match Rig::new(ctx, 0, 12, true, (0, 0)) { Some(r) => r, None => { ledger_line(ctx); return; } };
     rig.device_fill(ctx, vec![1, 2, 3], None);
     rig.blocking(ctx, Some(2), 0, Some(vec![9]), None);
     rig.consume(ctx, usize::MAX);
     rig.blocking(ctx, Some(5), 0, Some(vec![9]), None);
+    rig.finish(ctx);
+}
+
+/// the receive path while the device does not want to be told about new buffers (and while it does), `new` included:
+/// every way the driver re-posts the buffer (recv(pop) of the last byte, read, fill_buf) under every kind of words.
+/// `mode` 0: used.flags = 1 and the event index far ahead (suppressed under either feature setting); 1: flag set but the
+/// event index at the next entry (suppressed only without EVENT_IDX); 2: flag clear, event index one ahead (suppressed
+/// only with EVENT_IDX); 3: asks under both.
+fn directed_suppressed(ctx: &mut Ctx, feats: u64, mode: u32) {
+    let (flags, rel): (u16, u16) = match mode { 0 => (1, 0x4000), 1 => (1, 0), 2 => (0, 1), _ => (0, 0) };
+    let mut rig = match Rig::new(ctx, feats, 12, true, (flags, rel)) { Some(r) => r, None => { ledger_line(ctx); return; } };
+    // the buffer posted by `new` (under those words) takes the first chunk
+    rig.device_fill(ctx, vec![b'a', b'b'], None);
+    rig.rx_words_set(flags, rel);
+    rig.recv(ctx, true);
+    // taking the last byte posts the buffer again, notified or not
+    rig.recv(ctx, true); rig.recv(ctx, true);
+    // the device fills the buffer it found (by polling or by being told)
+    rig.device_fill(ctx, vec![b'c', b'd'], None);
+    rig.recv(ctx, false); rig.recv(ctx, true); rig.rx_words_set(flags, rel); rig.recv(ctx, true); rig.recv(ctx, true);
+    rig.device_fill(ctx, vec![b'e'], None); rig.ack(ctx, 1); rig.rx_words_set(flags, rel); rig.recv(ctx, true); rig.recv(ctx, true);
+    // drained through read: nothing is posted until the next read / fill_buf, which post under the same words
+    rig.device_fill(ctx, vec![1, 2, 3], None); rig.blocking(ctx, Some(8), 0, None, None);
+    rig.rx_words_set(flags, rel); rig.blocking(ctx, Some(2), 1, Some(vec![4, 5, 6]), None); rig.recv(ctx, true);
+    rig.rx_words_set(flags, rel); rig.read_ready(ctx);
+    rig.device_fill(ctx, vec![7], None); rig.read_ready(ctx); rig.blocking(ctx, None, 0, None, None); rig.consume(ctx, 1);
+    rig.rx_words_set(flags, rel); rig.blocking(ctx, None, 2, Some(vec![8, 9]), None); rig.consume(ctx, 1); rig.rx_words_set(flags, rel); rig.recv(ctx, true);
+    // the words change while a buffer is outstanding: no effect until the next post
+    rig.rx_words_set(flags ^ 1, rel ^ 1); rig.device_fill(ctx, vec![10], None); rig.recv(ctx, true); rig.recv(ctx, true);
+    rig.device_fill(ctx, vec![11, 12], None); rig.recv(ctx, true); rig.rx_words_set(flags, rel); rig.recv(ctx, true);
+    rig.device_fill(ctx, vec![13], None); rig.recv(ctx, true);
+    // sends under the same kinds of words on the transmit queue
+    rig.send(ctx, 0, vec![b'x'], TxPolicy::Poll(1)); rig.send(ctx, 1, vec![b'y', b'z'], TxPolicy::OnNotify); rig.send(ctx, 2, vec![1, 2, 3], TxPolicy::Poll(2));
+    rig.recv(ctx, false);
+    rig.finish(ctx);
+}
+
+fn prune_ledger() { hal::LEDGER.with(|l| { let mut l = l.borrow_mut(); l.shares.retain(|s| s.live); l.log.clear(); }); }
+
+/// Both queues across the 16-bit wrap of their free-running indices: WRAP_CHUNKS one- or two-byte chunks received through
+/// every receive call and as many sends, one line per operation (the model walks the same 65 600 steps).  The loop is
+/// bounded by its own count; an iteration at the end of which the chunk has not come out ends the scenario (the
+/// monitors of that iteration have said why), so a driver that stops delivering cannot keep it running.
+const WRAP_CHUNKS: usize = 65_600;
+fn wrap(ctx: &mut Ctx, feats: u64) {
+    let w0 = pick_words(ctx, 0, "rx");
+    let mut rig = match Rig::new(ctx, feats, 12, true, w0) { Some(r) => r, None => { ledger_line(ctx); return; } };
+    rig.lean = true;
+    let mut done = 0usize;
+    for i in 0..WRAP_CHUNKS {
+        if i % 64 == 0 { prune_ledger(); }
+        if ctx.rng.chance(1, 3) { rig.rx_words(ctx); }
+        let len = if ctx.rng.chance(1, 8) { 2 } else { 1 };
+        let chunk = ctx.rng.bytes(len);
+        let posted = dev(|d| d.rx_posted());
+        let mut ok = true;
+        if posted {
+            if !rig.device_fill(ctx, chunk, None) { ctx.tr.note("wrap_fill_refused"); break; }
+            match ctx.rng.below(16) {
+                0..=10 => { if ctx.rng.chance(1, 16) { ok &= rig.recv(ctx, false); } for _ in 0..len { ok &= rig.recv(ctx, true); } }
+                11 | 12 => { let n = if ctx.rng.chance(1, 2) { len } else { 4 }; ok &= rig.blocking(ctx, Some(n), 0, None, None).is_some(); }
+                13 => { ok &= rig.blocking(ctx, None, 0, None, None).is_some(); if ok { ok &= rig.consume(ctx, len); } }
+                14 => { ok &= rig.read_ready(ctx); for _ in 0..len { ok &= rig.recv(ctx, true); } }
+                _ => { let isr = 1 + 2 * ctx.rng.below(2) as u32; ok &= rig.ack(ctx, isr); for _ in 0..len { ok &= rig.recv(ctx, true); } }
+            }
+        } else {
+            // a read / consume took the last byte, so nothing is posted: read / fill_buf post it and the device fills during the wait
+            // (mostly two bytes of which read / consume take one: the recv(pop) of the other one below posts the buffer again)
+            let idle = ctx.rng.below(2) as u32;
+            let chunk = if ctx.rng.chance(3, 4) { ctx.rng.bytes(2) } else { chunk };
+            if ctx.rng.chance(1, 2) { ok &= rig.blocking(ctx, Some(1), idle, Some(chunk), None).is_some(); }
+            else { ok &= rig.blocking(ctx, None, idle, Some(chunk), None).is_some(); if ok { ok &= rig.consume(ctx, 1); } }
+        }
+        // whatever is left of the chunk comes out byte by byte (each recv(pop) bounded, at most two bytes are left)
+        for _ in 0..2 { if rig.undelivered == 0 || !ok { break; } ok &= rig.recv(ctx, true); }
+        if !ok || rig.undelivered != 0 { ctx.tr.note("wrap_receive_made_no_progress"); break; }
+        // the transmit queue advances by one entry per send
+        let kind = *ctx.rng.pick(&[0u8, 0, 1, 1, 2, 3]);
+        let n = if kind == 0 { 1 } else { 1 + ctx.rng.below(2) as usize };
+        let bytes = if kind == 3 { (0..n).map(|_| b'a' + ctx.rng.below(26) as u8).collect() } else { ctx.rng.bytes(n) };
+        let pol = if ctx.rng.chance(1, 2) { TxPolicy::OnNotify } else { TxPolicy::Poll(1 + ctx.rng.below(2) as u32) };
+        if !rig.send(ctx, kind, bytes, pol) { ctx.tr.note("wrap_send_failed"); break; }
+        done += 1;
+    }
+    ctx.tr.note_n("wrap_iterations_completed", done as u64);
+    let (ra, ta) = dev(|d| (hal::dev_read_u16(d.rx.drv + 2).unwrap(), hal::dev_read_u16(d.tx.drv + 2).unwrap()));
+    if done == WRAP_CHUNKS && (ra as usize) < WRAP_CHUNKS - 65_536 + 8 && (ta as usize) == WRAP_CHUNKS - 65_536 { ctx.tr.note("wrap_both_queues_went_round"); }
+    rig.recv(ctx, false);
     rig.finish(ctx);
 }
 
@@ -628,6 +785,7 @@ pub fn run(ctx: &mut Ctx) {
     let all: u64 = (1 << 28) | (1 << 29) | (1 << 32) | 7;
     let featsets = [0u64, 1 << 29, 1 << 28, all, u64::MAX, 5];
     for (i, f) in featsets.iter().enumerate() { ctx.tr.scenario(&format!("c15-directed-f{}", i)); directed(ctx, *f); }
+    for (i, f) in featsets.iter().enumerate() { for mode in 0..4 { ctx.tr.scenario(&format!("c15-suppress-f{}-m{}", i, mode)); directed_suppressed(ctx, *f, mode); } }
     let nh = ctx.budget(36, 12);
     for h in 0..nh {
         let f = featsets[(h % featsets.len() as u64) as usize];
@@ -638,4 +796,8 @@ pub fn run(ctx: &mut Ctx) {
         history(ctx, f, nops, small, cfg_len);
     }
     for w in 0..4 { for (i, f) in [0u64, all].iter().enumerate() { ctx.tr.scenario(&format!("c15-malformed-{}-f{}", w, i)); malformed(ctx, *f, w); } }
+    // the wrap: one feature combination per run, a different one in the two profiles (both run on every check)
+    let wf = [0u64, 1 << 29, 1 << 28, all];
+    let k = (ctx.rng.below(4) as usize + ctx.release as usize) % 4;
+    ctx.tr.scenario(&format!("c15-wrap-f{}", k)); wrap(ctx, wf[k]);
 }
